@@ -1,13 +1,5 @@
 package eio
 
-import (
-	"time"
-
-	"github.com/karagenc/socket.io-go/engine.io/parser"
-	"github.com/karagenc/socket.io-go/engine.io/transport"
-	"github.com/karagenc/socket.io-go/engine.io/transport/polling"
-)
-
 // C01_upgrade_server: events in flight across the polling -> websocket upgrade, seen from C01: event A (two frames: header
 // and attachment, handed to the socket in ONE Send, as the Socket.IO layer does) is still queued on the polling transport
 // when the server swaps transports; event B (two frames, one Send) is emitted concurrently. On the new transport every
@@ -20,35 +12,4 @@ import (
 //verif:visops 100
 //verif:rand concrete
 //verif:sleep gate
-func verifH_C01_upgrade_server() {
-	cOld := transport.NewCallbacks()
-	old := polling.NewServerTransport(cOld, 0, time.Hour)
-	s := &serverSocket{id: "sid1", transport: old, pongChan: make(chan struct{}, 1), closeChan: make(chan struct{}), onClose: func(string) {}, debug: NewNoopDebugger()}
-	s.setCallbacks(nil)
-	nw := &verifRecServerTransport{name: "websocket"}
-	queuedFirst := verifAnyBool()
-	if queuedFirst {
-		s.Send(verifNumbered('1'), verifNumbered('2')) // event A waits in the polling queue for a poll that never comes
-	}
-	verifThreads(true)
-	if !queuedFirst {
-		verifGo(func() { s.Send(verifNumbered('1'), verifNumbered('2')) })
-	}
-	verifGo(func() { s.Send(verifNumbered('3'), verifNumbered('4')) }) // event B
-	verifGo(func() { s.upgradeTo(nw, transport.NewCallbacks()) })
-	verifWaitQuiescent()
-	pos := map[byte]int{}
-	for _, n := range []byte{'1', '2', '3', '4'} {
-		verifAssert(verifCountNumbered(nw.sent, n) == 1, "every frame emitted around the upgrade reaches the peer exactly once")
-		pos[n] = -1
-		for i, p := range nw.sent {
-			if verifCountNumbered([]*parser.Packet{p}, n) == 1 {
-				pos[n] = i
-			}
-		}
-	}
-	verifAssert(pos['2'] == pos['1']+1, "the frames of event A stay adjacent and in order")
-	verifAssert(pos['4'] == pos['3']+1, "the frames of event B stay adjacent and in order")
-	verifAssert(verifHeldLocks() == 0, "no mutex left held")
-	verifReach("end")
-}
+func verifH_C01_upgrade_server() { verifUpgradeFrames() }
